@@ -52,14 +52,18 @@ func (p *parseContext) Defer(tokens []lexer.Token, strct reflect.Value, field st
 	p.apply = append(p.apply, &contextFieldSet{tokens, strct, field, fieldValue})
 }
 
-// Apply deferred functions.
-func (p *parseContext) Apply() error {
-	for _, apply := range p.apply {
+// Apply the functions deferred since the list held "from" entries, and drop them.
+//
+// Functions deferred earlier belong to enclosing productions: they stay deferred until their own
+// production completes, so that they are discarded if the branch they were captured on is abandoned.
+func (p *parseContext) Apply(from int) error {
+	pending := p.apply[from:]
+	p.apply = p.apply[:from]
+	for _, apply := range pending {
 		if err := setField(apply.tokens, apply.strct, apply.field, apply.fieldValue); err != nil {
 			return err
 		}
 	}
-	p.apply = nil
 	return nil
 }
 
